@@ -23,5 +23,11 @@ Theorem C19_no_shared_mutable_state_in_sources : statics_ok = true.
 Proof. vm_compute. reflexivity. Qed.
 Print Assumptions C19_no_shared_mutable_state_in_sources.
 
+(* ... and no class holds state through a shared-ownership pointer, a raw pointer or a reference: copies of an instance (e.g. a
+   Decoder copied while a reassembly is pending) are separate instances too *)
+Theorem C19_no_state_shared_between_copies : no_aliasing_members = true.
+Proof. vm_compute. reflexivity. Qed.
+Print Assumptions C19_no_state_shared_between_copies.
+
 Example C19_inventory_nonempty : (List.length gen_statics =? 1) = true.
 Proof. vm_compute. reflexivity. Qed.
